@@ -17,6 +17,10 @@ CLAIMED = {
    text="Gate conservation (capacity + holders = limit), no lost wake-up/signal and completion with limit 1 are invariants/liveness of Runner.tla checked by TLC; on the real code the monitor counts targets inside LoadTarget/Evaluate but outside EvaluateTargets against the limit set by CPU affinity, and checks the white-box free-slot count at quiescent points and at the end.",
    note="The limit is runtime.NumCPU(), controlled with taskset; white-box capacity read by reflection (omitted if the implementation is refactored).",
    technique="TLA+ invariants (gate conservation) in TLC; real traces evaluated by the TLA+ monitor under taskset-limited parallelism"),
+ "C20": dict(engine="cache", level="model_checking", design="DESIGN.md §4 C20",
+   text="TLC checks Cache.tla (readers/writer lock, fast probe, locked re-probe, call, store; one action per lock operation) composed with CacheMon.tla for 2-4 callers x 1-2 keys x failure plans; the real Cache().once is driven through its Starlark interface by TLC-generated, random and PCT schedules and free-running with a slow callable; every real execution is evaluated by the monitor and controlled traces are validated against Cache.tla.",
+   note="sync.RWMutex trusted; callable does not re-enter the cache; failures may be shared by overlapping calls (single-flight) but not cached.",
+   technique="TLA+ design spec + TLC; TLC-generated schedules replayed under a controlled scheduler; TLA+ monitor over real traces; trace validation against the design spec"),
 }
 
 checks = []
@@ -48,6 +52,8 @@ manifest = {
     "engines": [
         {"name": "runner", "path": "tools/fam_runner.py", "serves_properties": ["C04", "C05", "C09"],
          "kind_free_text": "TLC (design check, schedule generation, monitor evaluation, trace validation) + Go overlay harness with synctest controlled scheduler"},
+        {"name": "cache", "path": "tools/fam_cache.py", "serves_properties": ["C20"],
+         "kind_free_text": "TLC + Go overlay harness in package dawn (controlled scheduler, stress)"},
     ],
     "checks": checks,
     "not_applicable": [{"property_id": pid, "reason": NA_REASON} for pid in sorted(props) if pid not in CLAIMED],
